@@ -184,6 +184,12 @@ def gen_grid_triangle(rng, k, for_matrix):
         # before 1970 and straddling 1969/1970 (negative month ids; dates built by hand with ms/me, never with
         # the library's add_months, which is wrong before 1970: finding F10 of C12)
         s0 = rng.choice([rng.randint(-60 * 12, -13), rng.randint(-30, -1), -rp * rng.randint(1, 3) + rng.choice([0, 1, -1])])
+    if k % 3 == 2:
+        # month ends around the February of century years (2100, 2200: not leap; 2000, 2400: leap), of ordinary
+        # leap / non-leap years, and far-future dates; array frames stay below pandas' Timestamp limit (2262)
+        years = [2100, 2100, 2000, 2024, 2023, 2096, 2104, 1972, 2200, 2250] + ([2400, 2300, 3000] if for_matrix else [])
+        y = years[(k // 3) % len(years)]
+        s0 = (y - 1970) * 12 + 1 - rng.randint(0, 3) * rp - rng.randint(0, rp - 1)
     s0 -= s0 % rp if rng.random() < 0.7 else 0
     npd = rng.randint(1, 4)
     starts, cur = [], s0
@@ -929,6 +935,18 @@ def directed_probes(ctx, tmp):
                               ("annual-straddle", (-14, 12, 12)), ("monthly-straddle", (-3, 1, 3))]:
         probes.append((f"PRE1970/matrix/{nm}", grid(s0, rp, re_), "matrix", {"kind": "matrix_pre1970_month_ids"}))
         probes.append((f"PRE1970/rich/{nm}", grid(s0, rp, re_), "rich", {"kind": "matrix_pre1970_month_ids"}))
+    fid = lambda y, m: (y - 1970) * 12 + m - 1  # noqa: E731
+    fcls = {"kind": "century_february_month_length"}
+    for nm, (s0, rp, re_) in [("2100-monthly", (fid(2099, 12), 1, 1)), ("2100-quarterly", (fid(2099, 9), 3, 3)),
+                              ("2100-half", (fid(2099, 9), 6, 6)), ("2100-annual", (fid(2098, 3), 12, 12)),
+                              ("2100-monthly-q-evals", (fid(2099, 11), 1, 3)),
+                              ("2000-monthly", (fid(1999, 12), 1, 1)), ("2024-monthly", (fid(2023, 12), 1, 1)),
+                              ("2023-monthly", (fid(2022, 12), 1, 1)), ("2200-monthly", (fid(2199, 12), 1, 1))]:
+        g = grid(s0, rp, re_, 4, 4)
+        probes.append((f"FEB/matrix/{nm}", g, "matrix", fcls))
+        probes.append((f"FEB/rich/{nm}", g, "rich", fcls))
+        probes.append((f"FEB/array/{nm}", g, f"array-explicit:{rp}", fcls))
+        probes.append((f"FEB/array-default/{nm}", g, "array-default", fcls))
     probes.append(("PRE1970/array/quarterly-1965", grid(-60, 3, 3), "array-explicit:3", {"kind": "array_pre1970_add_months_f10"}))
     probes.append(("PRE1970/array/monthly-1963", grid(-84, 1, 1), "array-explicit:1", {"kind": "array_pre1970_add_months_f10"}))
     n = 0
@@ -956,6 +974,331 @@ def directed_probes(ctx, tmp):
             ctx.violation("impl-violation", f"[{name}] {probs[0]}",
                           {"kind": how, "probe": name, "triangle": tri_to_data(t), "problems": probs},
                           found_input=True, finding_class=cls)
+    ctx.count(evaluations=n)
+
+
+# ============================================================================== hardening stream (notes/HARDENING.md)
+PENDING_CLASSES = [{"kind": "array_pre1970_add_months_f10"}, {"kind": "frame_flat_name_collision"}]
+
+
+def _diff_msg(what, got, w):
+    diff = [x for x in w if x not in got][:1] + [x for x in got if x not in w][:1]
+    return f"{what}: {len(got)} cells back, {len(w)} expected; first difference {diff}"
+
+
+def expect_tri(what, thunk, want):
+    try:
+        with warnings.catch_warnings():
+            warnings.simplefilter("ignore")
+            back = thunk()
+    except Exception as ex:  # noqa: BLE001
+        return [f"{what}: raised {type(ex).__name__}: {str(ex)[:100]}"]
+    got = canon_tri(back)
+    return [] if got == want else [_diff_msg(what, got, want)]
+
+
+def expect_raises(what, thunk):
+    try:
+        with warnings.catch_warnings():
+            warnings.simplefilter("ignore")
+            thunk()
+    except Exception:  # noqa: BLE001
+        return []
+    return [f"{what}: documented refusal no longer refuses"]
+
+
+def hardening_cases(tmp):
+    """small directed cases, one per input family of notes/HARDENING.md; each entry is
+    (family, name, thunk -> list of problems, finding class or None)"""
+    import pandas as pd
+    from bermuda import CumulativeCell, Metadata, Triangle
+
+    _, dfi, dfo, arr, mx = B()
+    P = (D(2020, 1, 1), D(2020, 3, 31))
+    E1, E2 = D(2020, 3, 31), D(2020, 6, 30)
+    a3 = np.array([3.0, 1.0, 2.0])
+    out = []
+
+    def add(fam, name, thunk, cls=None):
+        out.append((fam, name, thunk, cls))
+
+    def csv(t, **kw):
+        return lambda: csv_roundtrip_problems(t, tmp, "hard", **kw)
+
+    def grid(s0, rp, re_, npd=3, nl=3, vals=None, m=None):
+        return Triangle([mkc(ms(s0 + p * rp), me(s0 + p * rp + rp - 1), me(s0 + p * rp + rp - 1 + j * re_),
+                             (vals(p, j) if vals else {"paid_loss": 1.0 + p + j}), m) for p in range(npd) for j in range(nl)])
+
+    # ---- A: equal Metadata spelled differently inside one slice
+    mA1 = Metadata(details={"a": 7, "b": "x"}, loss_details={"c": 1, "d": 2.5}, per_occurrence_limit=1000)
+    mA2 = Metadata(details={"b": "x", "a": 7.0}, loss_details={"d": 2.5, "c": 1.0}, per_occurrence_limit=1000.0)
+    tA = Triangle([mkc(*P, E1, {"paid_loss": 1.0}, mA1), mkc(*P, E2, {"paid_loss": 2.0}, mA2),
+                   mkc(*P, E1, {"paid_loss": 3.0}, Metadata(details={"b": "y", "a": 7}))])
+    add("A", "csv equal metadata spelled differently", csv(tA))
+    add("A", "slices of equally spelled metadata", lambda: [] if len(tA.slices) == 2 else [f"{len(tA.slices)} slices, expected 2"])
+    gA = Triangle([mkc(ms(600 + 3 * p), me(602 + 3 * p), me(602 + 3 * p + 3 * j), {"paid_loss": 1.0 + p + j}, mA1 if (p + j) % 2 else mA2)
+                   for p in range(2) for j in range(3)])
+    add("A", "matrix equal metadata spelled differently", lambda: matrix_roundtrip_problems(gA) + rich_matrix_problems(gA))
+    # ---- B: distinct Metadata that flatten alike (H1, pending class) / only loss_details differ
+    h1 = {"kind": "frame_flat_name_collision"}
+    add("B", "detail vs loss_detail of the same name", csv(Triangle([mkc(*P, E1, {"paid_loss": 1.0}, Metadata(details={"k": "v"})),
+                                                                      mkc(*P, E1, {"paid_loss": 2.0}, Metadata(loss_details={"k": "v"}))])), h1)
+    add("B", "detail named like an attribute", csv(Triangle([mkc(*P, E1, {"paid_loss": 1.0}, Metadata(details={"currency": "USD"})),
+                                                               mkc(*P, E1, {"paid_loss": 2.0}, Metadata(currency="USD"))])), h1)
+    add("B", "single slice, detail named currency", csv(Triangle([mkc(*P, E1, {"paid_loss": 1.0}, Metadata(details={"currency": "USD"}))])), h1)
+    for nm_, m_ in [("key in details and in loss_details", Metadata(details={"k": "v"}, loss_details={"k": "w"})),
+                    ("detail named scenario", Metadata(details={"scenario": "base"})),
+                    ("detail named field", Metadata(details={"field": "x"})),
+                    ("detail named period_start", Metadata(details={"period_start": "x"}))]:
+        add("B", "single slice, " + nm_, csv(Triangle([mkc(*P, E1, {"paid_loss": 1.0}, m_)])), h1)
+    add("B", "detail None vs missing", csv(Triangle([mkc(*P, E1, {"paid_loss": 1.0}, Metadata(details={"k": None})),
+                                                      mkc(*P, E1, {"paid_loss": 2.0}, Metadata())])), h1)
+    add("B", "slices differing only in loss_details", csv(Triangle([mkc(*P, E1, {"paid_loss": 1.0 + i}, Metadata(loss_details={"cov": v}))
+                                                                     for i, v in enumerate(("x", "y", "z"))])))
+    # ---- C: calendar corners through the frames (dates are data there), 30/31-day ends, day before / after a month end
+    tC = Triangle([mkc(D(2250, 2, 1), D(2250, 2, 28), D(2250, 3, 1), {"paid_loss": 1.0}),
+                   mkc(D(1900, 2, 1), D(1900, 2, 28), D(1900, 3, 1), {"paid_loss": 2.0}),
+                   mkc(D(2000, 2, 29), D(2000, 2, 29), D(2100, 2, 28), {"paid_loss": 3.0}),
+                   mkc(D(1969, 12, 31), D(1970, 1, 1), D(1970, 1, 2), {"paid_loss": 4.0}),
+                   mkc(D(2024, 4, 1), D(2024, 4, 30), D(2024, 4, 29), {"paid_loss": 5.0}),
+                   mkc(D(2024, 4, 1), D(2024, 4, 30), D(2024, 5, 1), {"paid_loss": 6.0}),
+                   mkc(D(2024, 1, 31), D(2024, 2, 29), D(2024, 3, 31), {"paid_loss": 7.0})])
+    add("C", "csv calendar corners", csv(tC))
+    tCi = Triangle([mkc(D(2100, 2, 1), D(2100, 2, 28), D(2100, 2, 28), {"paid_loss": 1.0}, prev=D(2100, 1, 31)),
+                    mkc(D(2100, 2, 1), D(2100, 2, 28), D(2100, 3, 31), {"paid_loss": 2.0}, prev=D(2100, 2, 28))])
+    add("C", "csv incremental around 2100-02-28", csv(tCi))
+    # ---- D: coordinates given as datetime / Timestamp / datetime subclass with a time of day
+    class _DT(datetime.datetime):
+        pass
+    for nm, mk in [("datetime", lambda y, m_, d: datetime.datetime(y, m_, d, 13, 45)),
+                   ("Timestamp", lambda y, m_, d: pd.Timestamp(y, m_, d, 13, 45)), ("subclass", lambda y, m_, d: _DT(y, m_, d, 23, 59, 59))]:
+        def tD(mk=mk):
+            return Triangle([CumulativeCell(period_start=mk(2020, 1, 1), period_end=mk(2020, 3, 31), evaluation_date=mk(2020, 3 + 3 * j, 30 if j else 31),
+                                            values={"paid_loss": 1.0 + j}) for j in range(2)])
+        def plain(t):
+            bad = [c for c in t if any(type(x) is not datetime.date for x in (c.period_start, c.period_end, c.evaluation_date))]
+            return [f"cell holds {type(bad[0].period_start).__name__} coordinates"] if bad else []
+        add("D", f"{nm} coordinates: plain dates, csv, matrix, array",
+            lambda tD=tD, plain=plain: plain(tD()) + csv_roundtrip_problems(tD(), tmp, "hard") + matrix_roundtrip_problems(tD())
+            + rich_matrix_problems(tD()) + array_explicit_problems(tD(), 3))
+    # ---- E: falsy but valid values
+    tE = Triangle([mkc(*P, E1, {"paid_loss": 0, "reported_loss": 0.0}, Metadata(per_occurrence_limit=0, details={"n": 0, "w": 0.0})),
+                   mkc(*P, E2, {"paid_loss": np.array([0.0, 0.0, 0.0]), "reported_loss": np.array([0, 0, 0])},
+                       Metadata(per_occurrence_limit=0, details={"n": 0, "w": 0.0}))])
+    add("E", "csv zero values / limit / details", csv(tE))
+    gE = grid(600, 3, 3, vals=lambda p, j: {"paid_loss": 0.0 if (p + j) % 2 else 0, "reported_loss": 0})
+    add("E", "matrix / array zero values", lambda: matrix_roundtrip_problems(gE) + rich_matrix_problems(gE)
+        + array_explicit_problems(gE.select(["paid_loss"]), 3))
+    add("E", "matrix eval_resolution=0 means default",
+        lambda: expect_tri("eval_resolution=0", lambda: mx.matrix_to_triangle(mx.triangle_to_matrix(gE, eval_resolution=0)), canon_tri(gE)))
+    # ---- F: degenerate shapes
+    # the empty triangle has no CSV form (KeyError 'scenario', modelled as Err KeyError; theorems carry t <> []): outside
+    # C14's quantifier (triangles WITH cells) -- exercised, never flagged
+    def empty():
+        try:
+            csv_roundtrip_problems(Triangle([]), tmp, "hard")
+        except Exception:  # noqa: BLE001
+            pass
+        return []
+    add("F", "empty triangle (not flagged)", empty)
+    # a field whose value is None is not a number: it is not written and comes back absent
+    tN = Triangle([mkc(*P, E1, {"paid_loss": 1.0, "reported_loss": None}), mkc(*P, E2, {"paid_loss": 2.0, "reported_loss": 4.0})])
+    tNw = Triangle([mkc(*P, E1, {"paid_loss": 1.0}), mkc(*P, E2, {"paid_loss": 2.0, "reported_loss": 4.0})])
+
+    def none_field():
+        ph = str(tmp / "hard_none.csv")
+        tN.to_wide_csv(ph)
+        pr = expect_tri("wide CSV, None-valued field", lambda: Triangle.from_wide_csv(ph, field_cols=["paid_loss", "reported_loss"]), canon_tri(tNw))
+        tN.to_long_csv(ph)
+        return pr + expect_tri("long CSV, None-valued field", lambda: Triangle.from_long_csv(ph), canon_tri(tNw))
+    add("F", "None-valued field is absent after the round trip", none_field)
+    add("F", "one cell", csv(Triangle([mkc(*P, E1, {"paid_loss": 1.5})])))
+    add("F", "one sample cell", csv(Triangle([mkc(*P, E1, {"paid_loss": a3})])))
+    add("F", "field only at later evaluations", csv(Triangle([mkc(*P, E1, {"paid_loss": 1.0}), mkc(*P, E2, {"paid_loss": 2.0, "reported_loss": 3.0})])))
+    add("F", "sample field missing in the first cell", csv(Triangle([mkc(*P, E1, {"paid_loss": a3}), mkc(*P, E2, {"paid_loss": a3 + 1, "reported_loss": a3 + 2})])))
+    add("F", "scalar cell after sample cell", csv(Triangle([mkc(*P, E1, {"paid_loss": a3}), mkc(*P, E2, {"paid_loss": 5.0})])))
+    g1 = grid(600, 3, 3, npd=1, nl=2)
+    add("F", "matrix / array one period", lambda: matrix_roundtrip_problems(g1) + rich_matrix_problems(g1) + array_explicit_problems(g1, 3))
+    gF = grid(600, 3, 3, vals=lambda p, j: ({"paid_loss": 1.0} if j == 0 else {"paid_loss": 2.0, "reported_loss": 3.0 + p}))
+    add("F", "matrix field only at later evaluations", lambda: matrix_roundtrip_problems(gF) + rich_matrix_problems(gF))
+    # ---- G: NumPy corner types
+    tG = Triangle([mkc(*P, E1, {"paid_loss": np.float64(1.5), "reported_loss": np.int64(3)}),
+                   mkc(*P, E2, {"paid_loss": np.array(2.5), "reported_loss": np.array([7])})])
+    add("G", "csv numpy scalars, 0-d and size-1 arrays", csv(tG))
+    tG2 = Triangle([mkc(*P, E1, {"paid_loss": np.array([1.5, 2.5, 4.0], dtype=np.float32), "reported_loss": np.array([3, 4, 5], dtype=np.int16)}),
+                    mkc(*P, E2, {"paid_loss": np.arange(6.0)[::2], "reported_loss": np.asfortranarray(np.array([[1, 2, 3], [4, 5, 6]], dtype=np.int32))[1]})])
+    add("G", "csv float32 / int16 / int32, strided arrays", csv(tG2))
+    gG = grid(600, 3, 3, vals=lambda p, j: {"paid_loss": np.float64(1.5 + p), "reported_loss": np.int64(3 + j) if j else np.array(2.0)})
+    add("G", "matrix numpy scalars and 0-d arrays", lambda: matrix_roundtrip_problems(gG))
+    # ---- H: state between calls
+    ta = Triangle([mkc(*P, E1, {"paid_loss": 1.0})])
+    tb = Triangle([mkc(*P, E1, {"paid_loss": 9.0}, Metadata(country="DE")), mkc(*P, E2, {"paid_loss": 8.0}, Metadata(country="DE"))])
+
+    def rewrite(write, read):
+        ph = str(tmp / "hard_state.csv")
+        getattr(ta, write)(ph)
+        first = read(ph)
+        getattr(tb, write)(ph)
+        return expect_tri(f"{write} then rewritten", lambda: read(ph), canon_tri(tb)) + \
+            ([] if canon_tri(first) == canon_tri(ta) else ["first load differs"])
+    add("H", "path rewritten between loads (wide)", lambda: rewrite("to_wide_csv", lambda p_: Triangle.from_wide_csv(p_, field_cols=["paid_loss"])))
+    add("H", "path rewritten between loads (long)", lambda: rewrite("to_long_csv", lambda p_: Triangle.from_long_csv(p_)))
+
+    def twice():
+        d1 = long_fix(dfo.triangle_to_wide_data_frame(tA))
+        kw = dict(field_cols=["paid_loss"], loss_detail_cols=["c", "d"])
+        r1 = dfi.wide_data_frame_to_triangle(d1, **kw)
+        r2 = dfi.wide_data_frame_to_triangle(d1, **kw)
+        d2 = long_fix(dfo.triangle_to_long_data_frame(tA))
+        r3 = dfi.long_data_frame_to_triangle(d2, loss_detail_cols=["c", "d"])
+        r4 = dfi.long_data_frame_to_triangle(d2, loss_detail_cols=["c", "d"])
+        w = canon_tri(tA)
+        return [f"call #{i} differs" for i, r in enumerate((r1, r2, r3, r4), 1) if canon_tri(r) != w]
+    add("H", "same frame read twice", twice)
+    add("H", "matrix twice", lambda: matrix_roundtrip_problems(gA) + matrix_roundtrip_problems(gA))
+    # ---- I: restated cells (same coordinates twice, other values): never merged silently
+    tI = Triangle([mkc(*P, E1, {"paid_loss": 1.0}), mkc(*P, E1, {"paid_loss": 2.0}), mkc(*P, E2, {"paid_loss": 3.0})])
+
+    def restated():
+        pr = []
+        for what, wr, rd in [("wide", "to_wide_csv", lambda p_: Triangle.from_wide_csv(p_, field_cols=["paid_loss"])),
+                             ("long", "to_long_csv", lambda p_: Triangle.from_long_csv(p_))]:
+            ph = str(tmp / "hard_restated.csv")
+            getattr(tI, wr)(ph)
+            try:
+                back = rd(ph)
+            except Exception:  # noqa: BLE001
+                continue            # loud refusal is fine
+            if canon_tri(back) != canon_tri(tI):
+                pr.append(f"{what} CSV: restated cells came back as {len(back)} cells without an error")
+        return pr
+    add("I", "restated cells refused or kept", restated)
+    # ---- J: period layouts
+    tJ = Triangle([mkc(D(2020, 1, 1), D(2020, 3, 31), E1, {"paid_loss": 1.0}), mkc(D(2020, 1, 1), D(2020, 12, 31), D(2020, 12, 31), {"paid_loss": 2.0}),
+                   mkc(D(2020, 1, 16), D(2020, 1, 31), E1, {"paid_loss": 3.0}), mkc(D(2020, 1, 1), D(2020, 1, 15), E1, {"paid_loss": 3.5}),
+                   mkc(D(2019, 7, 1), D(2020, 3, 31), E1, {"paid_loss": 4.0}), mkc(D(2019, 7, 1), D(2020, 3, 31), D(2020, 2, 29), {"paid_loss": 4.5})])
+    add("J", "csv nested / overlapping / semi-monthly periods", csv(tJ))
+    tJ2 = Triangle([mkc(*P, E1, {"paid_loss": 1.0}, Metadata(country="US")), mkc(*P, E2, {"paid_loss": 2.0}, Metadata(country="US")),
+                    mkc(D(2021, 7, 1), D(2021, 7, 31), D(2022, 1, 31), {"paid_loss": 3.0}, Metadata(country="DE"))])
+    add("J", "csv per-slice ragged rows", csv(tJ2))
+    gJ = Triangle([mkc(ms(600 + s), me(600 + s + 2), me(600 + s + 2 + 3 * j), {"paid_loss": 1.0 + j}) for s in (0, 6, 15) for j in range(2)])
+    add("J", "matrix / array periods with gaps, no two adjacent", lambda: matrix_roundtrip_problems(gJ) + rich_matrix_problems(gJ)
+        + array_explicit_problems(gJ, 3))
+    # ---- K: optional parameters at non-default values, positional spelling
+    mK = Metadata(country="US", details={"lob": "auto", "n": 0}, loss_details={"cov": "x"})
+    tK = Triangle([mkc(*P, E1, {"paid_loss": 1.0, "reported_loss": 2.0}, mK), mkc(*P, E2, {"paid_loss": 3.0}, mK)])
+    wK, wKm = canon_tri(tK), canon_tri(tK, merge_loss=True)
+
+    def kwide():
+        ph = str(tmp / "hard_k.csv")
+        tK.to_wide_csv(ph)
+        fc = ["paid_loss", "reported_loss"]
+        pr = expect_tri("detail_cols only", lambda: Triangle.from_wide_csv(ph, detail_cols=["lob", "n", "cov"], loss_detail_cols=["cov"]), wK)
+        pr += expect_tri("field_cols and detail_cols", lambda: Triangle.from_wide_csv(ph, field_cols=fc, detail_cols=["lob", "n", "cov"], loss_detail_cols=["cov"]), wK)
+        pr += expect_tri("positional", lambda: Triangle.from_wide_csv(ph, fc, None, ["cov"]), wK)
+        pr += expect_tri("collapse_fields=[]", lambda: Triangle.from_wide_csv(ph, field_cols=fc, loss_detail_cols=["cov"], collapse_fields=[]), wK)
+        pr += expect_tri("loss_detail_cols=[]", lambda: Triangle.from_wide_csv(ph, field_cols=fc, loss_detail_cols=[]), wKm)
+        return pr
+    add("K", "wide reader parameters", kwide)
+    t2 = Triangle([mkc(*P, E1, {"paid_loss": 1.0}, Metadata(risk_basis="Policy", currency="EUR"))])
+    dflt = Metadata(risk_basis="Policy", currency="EUR")
+    add("K", "metadata= default (wide, long)", lambda: expect_tri(
+        "wide metadata=", lambda: dfi.wide_data_frame_to_triangle(dfo.triangle_to_wide_data_frame(t2).drop(columns=["risk_basis", "currency"]),
+                                                                  field_cols=["paid_loss"], metadata=dflt), canon_tri(t2))
+        + expect_tri("long metadata=", lambda: dfi.long_data_frame_to_triangle(
+            long_fix(dfo.triangle_to_long_data_frame(t2)).drop(columns=["risk_basis", "currency"]), metadata=dflt), canon_tri(t2)))
+    t3 = Triangle([mkc(*P, E1, {"paid_loss": a3, "earned_premium": 5.0}), mkc(*P, E2, {"paid_loss": a3 + 1, "earned_premium": 6.0})])
+
+    def kcollapse():
+        ph = str(tmp / "hard_k3.csv")
+        t3.to_wide_csv(ph)
+        return expect_tri("collapse_fields", lambda: Triangle.from_wide_csv(ph, field_cols=["paid_loss", "earned_premium"],
+                                                                           collapse_fields=["earned_premium"]), canon_tri(t3))
+    add("K", "collapse_fields", kcollapse)
+    gK = grid(600, 3, 3, vals=lambda p, j: {"paid_loss": 1.0 + p + j, "reported_loss": 2.0 + j})
+
+    def kmatrix():
+        def mt(**kw):
+            return mx.matrix_to_triangle(mx.triangle_to_matrix(gK, **kw))
+        return (expect_tri("fields subset", lambda: mt(fields=["paid_loss"]), canon_tri(gK.select(["paid_loss"])))
+                + expect_tri("fields reordered", lambda: mt(fields=["reported_loss", "paid_loss"]), canon_tri(gK))
+                + expect_tri("eval_resolution=3", lambda: mt(eval_resolution=3), canon_tri(gK))
+                + expect_tri("eval_resolution=1 (finer)", lambda: mt(eval_resolution=1), canon_tri(gK))
+                + expect_tri("positional", lambda: mx.matrix_to_triangle(mx.triangle_to_matrix(gK, None, ["paid_loss", "reported_loss"])), canon_tri(gK)))
+    add("K", "matrix parameters", kmatrix)
+    gKa = gK.select(["paid_loss"])
+
+    def karray():
+        def at(cols=None, **kw):
+            df = arr.triangle_to_array_data_frame(gKa, "paid_loss")
+            if cols:
+                df.columns = cols
+            return arr.array_data_frame_to_triangle(df, "paid_loss", metadata=gKa.cells[0].metadata, **kw)
+        w = canon_tri(gKa)
+        return (expect_tri("period_resolution=3", lambda: at(period_resolution=3), w)
+                + expect_tri("eval_resolution=3", lambda: at(period_resolution=3, eval_resolution=3), w)
+                + expect_tri("non-integer column names", lambda: at(cols=["period", "a", "b", "c"], period_resolution=3), w)
+                + expect_tri("inferred", lambda: at(), w))
+    add("K", "array parameters", karray)
+    # ---- L: refusals both ways
+    def refusals():
+        ph = str(tmp / "hard_l.csv")
+        tK.to_wide_csv(ph)
+        dfw = dfo.triangle_to_wide_data_frame(tK)
+        dfl = long_fix(dfo.triangle_to_long_data_frame(tK))
+        one = Triangle([mkc(ms(600), me(602), me(605), {"paid_loss": 1.0}), mkc(ms(603), me(605), me(605), {"paid_loss": 2.0})])
+        nm_ = Triangle([mkc(D(2020, 1, 1), D(2020, 3, 30), D(2020, 3, 31), {"paid_loss": 1.0}), mkc(D(2020, 1, 1), D(2020, 3, 30), D(2020, 6, 30), {"paid_loss": 1.0})])
+        ov = Triangle([mkc(D(2020, 1, 1), D(2020, 3, 31), E1, {"paid_loss": 1.0}), mkc(D(2020, 1, 1), D(2020, 6, 30), E2, {"paid_loss": 1.0})])
+        pr = []
+        pr += expect_raises("wide: neither field_cols nor detail_cols", lambda: Triangle.from_wide_csv(ph))
+        pr += expect_raises("wide: field_cols and detail_cols overlap", lambda: Triangle.from_wide_csv(ph, field_cols=["paid_loss", "lob"], detail_cols=["lob"]))
+        pr += expect_raises("wide: loss_detail_cols not in detail_cols", lambda: Triangle.from_wide_csv(ph, field_cols=["paid_loss", "reported_loss"], detail_cols=["lob", "n"], loss_detail_cols=["cov"]))
+        pr += expect_raises("wide: period_end column missing", lambda: dfi.wide_data_frame_to_triangle(dfw.drop(columns=["period_end"]), field_cols=["paid_loss", "reported_loss"]))
+        pr += expect_raises("long: value column missing", lambda: dfi.long_data_frame_to_triangle(dfl.drop(columns=["value"])))
+        pr += expect_raises("long: field column missing", lambda: dfi.long_data_frame_to_triangle(dfl.drop(columns=["field"])))
+        pr += expect_raises("long: non-numeric value column", lambda: dfi.long_data_frame_to_triangle(dfl.assign(value="x")))
+        pr += expect_raises("matrix: single evaluation date without eval_resolution", lambda: mx.triangle_to_matrix(one))
+        pr += expect_raises("matrix: not month-aligned", lambda: mx.triangle_to_matrix(nm_))
+        pr += expect_raises("matrix: overlapping periods", lambda: mx.triangle_to_matrix(ov))
+        pr += expect_raises("array: several slices", lambda: arr.triangle_to_array_data_frame(tA, "paid_loss"))
+        pr += expect_raises("array: incremental", lambda: arr.triangle_to_array_data_frame(tCi, "paid_loss"))
+        pr += expect_raises("array: one period, resolution not given", lambda: arr.array_data_frame_to_triangle(
+            arr.triangle_to_array_data_frame(g1, "paid_loss"), "paid_loss"))
+        # valid inputs next to the boundary are NOT refused
+        pr += expect_tri("matrix: single evaluation date WITH eval_resolution", lambda: mx.matrix_to_triangle(mx.triangle_to_matrix(one, eval_resolution=3)), canon_tri(one))
+        pr += expect_tri("array: one period, resolution given", lambda: arr.array_data_frame_to_triangle(
+            arr.triangle_to_array_data_frame(g1, "paid_loss"), "paid_loss", period_resolution=3, metadata=g1.cells[0].metadata), canon_tri(g1))
+        pr += expect_tri("wide: loss_detail_cols inside detail_cols", lambda: Triangle.from_wide_csv(ph, field_cols=["paid_loss", "reported_loss"], detail_cols=["lob", "n", "cov"], loss_detail_cols=["cov"]), wK)
+        return pr
+    add("L", "refusals both ways", refusals)
+    return out
+
+
+def run_hardening_case(tmp, fam, name):
+    for f, n, thunk, cls in hardening_cases(tmp):
+        if f == fam and n == name:
+            return thunk(), cls
+    return [f"hardening case {fam}/{name} no longer exists"], None
+
+
+def hardening_stream(ctx, tmp):
+    n = 0
+    for fam, name, thunk, cls in hardening_cases(tmp):
+        n += 1
+        ctx.hist("hardening:" + fam)
+        try:
+            probs = thunk()
+        except Exception as ex:  # noqa: BLE001
+            probs = [f"case raised {type(ex).__name__}: {str(ex)[:120]}"]
+        if not probs:
+            continue
+        listed = any(k_.get("property") == ctx.pid and k_.get("class") == cls for k_ in ctx.known)
+        if cls in PENDING_CLASSES and not listed:
+            ctx.notes.append(f"UNLISTED FINDING {cls}: [HARD/{fam}/{name}] {probs[0]}")
+            ctx.log(f"UNLISTED FINDING (not in known_findings.json) {cls}: [HARD/{fam}/{name}] {probs[0][:140]}")
+            continue
+        ctx.violation("impl-violation", f"[HARD/{fam}/{name}] {probs[0]}",
+                      {"kind": "hardening", "family": fam, "case": name, "problems": probs[:5]}, found_input=True, finding_class=cls)
     ctx.count(evaluations=n)
 
 
@@ -1163,6 +1506,7 @@ def run(ctx):
 
     # ---------------------------------------------------------------- 4. directed probes + verdicts
     directed_probes(ctx, tmp)
+    hardening_stream(ctx, tmp)
     reported = 0
     for kind, t, info, problems in py_fail:
         cls = info.get("class") if isinstance(info.get("class"), dict) else None
@@ -1189,6 +1533,15 @@ def replay(ctx, data):
     warnings.filterwarnings("ignore")
     tmp = ctx.build / "replay_csv"
     tmp.mkdir(parents=True, exist_ok=True)
+    if data.get("kind") == "hardening":
+        probs, _ = run_hardening_case(tmp, data["family"], data["case"])
+        shutil.rmtree(tmp, ignore_errors=True)
+        print(f"hardening case {data['family']}/{data['case']} (built by harness.c14.hardening_cases)")
+        for p_ in probs:
+            print("PROPERTY FAILS:", p_)
+        if not probs:
+            print("holds on this tree")
+        return 1 if probs else 0
     if "triangle" not in data:
         print("replay data has no concrete input:", data.get("what"))
         return 1
